@@ -273,9 +273,32 @@ def check_jacobian(case):
         show="jacobian {} {}".format(variables, common.show(d, 150)))
 
 
+def enum_controlled(tier):
+    """ Every controlled rotation on every phase expression, pure gradient,
+    behind a layer of Hadamards (so that the control is in superposition). """
+    for g in qspec.ROT2:
+        for expr in EXPRS:
+            for var in ("u", "v"):
+                for k, point in enumerate(POINTS[:2 if tier == "quick"
+                                                 else len(POINTS)]):
+                    layers = [[{"k": "g", "g": "Ket", "a": [k % 2, 1]}, 0],
+                              [{"k": "g", "g": "H"}, 0],
+                              [{"k": "g", "g": "H"}, 1],
+                              [{"k": "g", "g": g, "a": [expr]}, 0]]
+                    yield {"d": {"cls": "circuit", "dom": [],
+                                 "layers": layers},
+                           "var": var, "mixed": False,
+                           "env": {s: point + 0.1 * i for i, s in enumerate(
+                               ["u", "v", "x", "y", "z"])}}
+
+
 core.register("C15", [
     Facet("circuits", circuit_cases, check_circuit, n_quick=280,
           shards_quick=8, rule=RULE),
+    Facet("controlled", None, check_circuit, enum=enum_controlled,
+          shards_quick=8, rule="pure gradients of CRz, CRx and CU1 on every "
+          "phase expression of the generator (affine and not), w.r.t. each "
+          "symbol"),
     Facet("tensors", tensor_cases, check_tensor, n_quick=800,
           shards_quick=4, rule="tensor diagrams with symbolic boxes, "
           "optionally inside a polynomial bubble; gradient and jacobian vs "
